@@ -136,6 +136,19 @@ struct RecDh {
     inner: Box<dyn Dh>,
     id: u32,
     ctl: Arc<Ctl>,
+    /// `+hb`: an honest party whose X25519 public keys are encoded with bit 255 set (RFC 7748 receivers mask that bit, so
+    /// the encoding is DH-equivalent; Noise hashes and reports the bytes as transmitted)
+    high_bit: bool,
+    pubcopy: Vec<u8>,
+}
+
+impl RecDh {
+    fn refresh(&mut self) {
+        self.pubcopy = self.inner.pubkey().to_vec();
+        if self.high_bit && self.inner.name() == "25519" && self.pubcopy.len() == 32 {
+            self.pubcopy[31] |= 0x80;
+        }
+    }
 }
 
 impl Dh for RecDh {
@@ -150,6 +163,7 @@ impl Dh for RecDh {
     }
     fn set(&mut self, privkey: &[u8]) {
         self.inner.set(privkey);
+        self.refresh();
         if self.ctl.rec_d {
             self.ctl.push(format!(
                 "  d set obj=d{} priv={} pub={}",
@@ -161,6 +175,7 @@ impl Dh for RecDh {
     }
     fn generate(&mut self, rng: &mut dyn Random) {
         self.inner.generate(rng);
+        self.refresh();
         if self.ctl.rec_d {
             self.ctl.push(format!(
                 "  d gen obj=d{} priv={} pub={}",
@@ -171,7 +186,11 @@ impl Dh for RecDh {
         }
     }
     fn pubkey(&self) -> &[u8] {
-        self.inner.pubkey()
+        if self.high_bit {
+            &self.pubcopy
+        } else {
+            self.inner.pubkey()
+        }
     }
     fn privkey(&self) -> &[u8] {
         self.inner.privkey()
@@ -205,8 +224,15 @@ struct RecCipher {
     keyset: bool,
     /// the cipher defines its own REKEY (spec 4.2 allows that): k' = SHA-256("verif-rekey" || k)
     custom_rekey: bool,
+    /// `+df`: a back end whose decrypt can fail for a reason of its own (not a bad tag): ciphertexts that start with
+    /// DEC_FAULT_MAGIC are refused with Error::Input before the real cipher sees them
+    dec_fault: bool,
+    /// a second instance of the same cipher, used only to find out which key a REKEY really installed
+    scratch: Option<Mutex<Box<dyn Cipher>>>,
     ctl: Arc<Ctl>,
 }
+
+pub const DEC_FAULT_MAGIC: &[u8] = b"\xde\xcf\xa0\x17vf";
 
 impl RecCipher {
     fn keystr(&self) -> String {
@@ -235,18 +261,31 @@ impl Cipher for RecCipher {
         if self.ctl.rec_c {
             let m = core::cmp::min(n, out.len());
             self.ctl.push(format!(
-                "  c enc obj=c{} key={} n={} ad={} pt={} ct={}",
+                "  c enc obj=c{} key={} n={} ad={} pt={} ct={} ks={}",
                 self.id,
                 self.keystr(),
                 nonce,
                 hex_or_dash(authtext),
                 dig(plaintext),
-                dig(&out[..m])
+                dig(&out[..m]),
+                // the first keystream bytes this (key, nonce) produced: two different nonces of one key must never
+                // share them (an AEAD nonce collision beneath the trait boundary)
+                if plaintext.len() >= 16 && m >= 16 {
+                    hex(&plaintext[..16].iter().zip(&out[..16]).map(|(a, b)| a ^ b).collect::<Vec<u8>>())
+                } else {
+                    "-".to_string()
+                }
             ));
         }
         n
     }
     fn decrypt(&self, nonce: u64, authtext: &[u8], ciphertext: &[u8], out: &mut [u8]) -> Result<usize, Error> {
+        if self.dec_fault && ciphertext.starts_with(DEC_FAULT_MAGIC) {
+            if self.ctl.rec_c {
+                self.ctl.push(format!("  c decfault obj=c{} n={}", self.id, nonce));
+            }
+            return Err(Error::Input);
+        }
         let r = self.inner.decrypt(nonce, authtext, ciphertext, out);
         if self.ctl.rec_c {
             self.ctl.push(format!(
@@ -276,14 +315,35 @@ impl Cipher for RecCipher {
         }
         // what REKEY(k) is for the key the wrapper shadows, computed without side effects
         let mut buf = [0_u8; 48];
+        let mut buf2 = [0_u8; 48];
         let old = self.keystr();
         let n = self.inner.encrypt(u64::MAX, &[], &[0_u8; 32], &mut buf);
+        let n2 = self.inner.encrypt(u64::MAX - 1, &[], &[0_u8; 32], &mut buf2);
         self.inner.rekey();
         if n == 48 {
             self.key.copy_from_slice(&buf[..32]);
         }
+        // which nonce did the real REKEY consume? compare the key now in effect with ENCRYPT(k, nonce, "", zeros)
+        let mut used = "unchecked".to_string();
+        if let (Some(sc), true, true) = (&self.scratch, n == 48, n2 == 48) {
+            let mut sc = sc.lock().unwrap_or_else(|e| e.into_inner());
+            let (mut real, mut cand) = ([0_u8; 32], [0_u8; 32]);
+            self.inner.encrypt(0, &[], &[0_u8; 16], &mut real);
+            let mut k = [0_u8; 32];
+            k.copy_from_slice(&buf[..32]);
+            sc.set(&k);
+            sc.encrypt(0, &[], &[0_u8; 16], &mut cand);
+            if real == cand {
+                used = u64::MAX.to_string();
+            } else {
+                k.copy_from_slice(&buf2[..32]);
+                sc.set(&k);
+                sc.encrypt(0, &[], &[0_u8; 16], &mut cand);
+                used = if real == cand { (u64::MAX - 1).to_string() } else { "unknown".to_string() };
+            }
+        }
         if self.ctl.rec_c {
-            self.ctl.push(format!("  c rekey obj=c{} old={} new={}", self.id, old, self.keystr()));
+            self.ctl.push(format!("  c rekey obj=c{} old={} new={} used={}", self.id, old, self.keystr(), used));
         }
     }
 }
@@ -301,6 +361,8 @@ pub struct RecResolver {
     pub rng: RngMode,
     pub hide: u8,
     pub custom_rekey: bool,
+    pub dec_fault: bool,
+    pub high_bit: bool,
 }
 
 impl CryptoResolver for RecResolver {
@@ -329,7 +391,9 @@ impl CryptoResolver for RecResolver {
             return None;
         }
         let inner = self.inner.resolve_dh(choice)?;
-        Some(Box::new(RecDh { inner, id: self.ctl.obj(), ctl: self.ctl.clone() }))
+        let mut d = RecDh { inner, id: self.ctl.obj(), ctl: self.ctl.clone(), high_bit: self.high_bit, pubcopy: Vec::new() };
+        d.refresh();
+        Some(Box::new(d))
     }
     fn resolve_hash(&self, choice: &HashChoice) -> Option<Box<dyn Hash>> {
         if self.hide & HIDE_HASH != 0 {
@@ -348,6 +412,8 @@ impl CryptoResolver for RecResolver {
             key: [0; 32],
             keyset: false,
             custom_rekey: self.custom_rekey,
+            dec_fault: self.dec_fault,
+            scratch: if self.ctl.rec_c { self.inner.resolve_cipher(choice).map(Mutex::new) } else { None },
             ctl: self.ctl.clone(),
         }))
     }
@@ -443,12 +509,20 @@ pub fn base_resolver(spec: &str) -> Result<(BoxedCryptoResolver, u8), String> {
 
 /// a trailing `+rk` gives every cipher of the resolver its own REKEY function (see RecCipher)
 pub fn make_resolver(spec: &str, ctl: Arc<Ctl>, rng: RngMode) -> Result<BoxedCryptoResolver, String> {
+    let (spec, high_bit) = match spec.strip_suffix("+hb") {
+        Some(s) => (s, true),
+        None => (spec, false),
+    };
+    let (spec, dec_fault) = match spec.strip_suffix("+df") {
+        Some(s) => (s, true),
+        None => (spec, false),
+    };
     let (spec, custom_rekey) = match spec.strip_suffix("+rk") {
         Some(s) => (s, true),
         None => (spec, false),
     };
     let (inner, hide) = base_resolver(spec)?;
-    Ok(Box::new(RecResolver { inner, ctl, rng, hide, custom_rekey }))
+    Ok(Box::new(RecResolver { inner, ctl, rng, hide, custom_rekey, dec_fault, high_bit }))
 }
 
 // ---------------------------------------------------------------- stubs (C20 truth table)
